@@ -62,3 +62,21 @@ func TestDbgErrs(t *testing.T) {
 		}
 	}
 }
+
+func TestDbgNB(t *testing.T) {
+	if os.Getenv("C07_NB") == "" {
+		t.Skip()
+	}
+	g := genNBCase(func() int { return 2 })
+	for i := 0; i < 6; i++ {
+		c := rapidExampleNB(g, i)
+		a := nbOnce(c)
+		fmt.Println(c.Mode, c.IOMode, c.DataType, "nb error:", a["error"])
+		if i == 0 {
+			fmt.Println(a["out.basm"])
+		}
+		files := nbBasmInputs(c, a["out.basm"])
+		b := assembleOnce(files, nbBasmFlags)
+		fmt.Println("basm error:", b["error"], len(b["bm.json"]))
+	}
+}
